@@ -2514,6 +2514,10 @@ func (tr *translator) translate(key string) *result {
 		fail("%s: control reaches the end of a function with results", key)
 		return ""
 	}
+	if len(stmts) > 0 {
+		a, b := p.fset.Position(stmts[0].Pos()), p.fset.Position(stmts[len(stmts)-1].End())
+		coverLines = append(coverLines, fmt.Sprintf("%s:%d-%d %s", filepath.Base(a.Filename), a.Line, b.Line, t.lean))
+	}
 	_ = f.block(stmts, end)
 	f.pre, f.tmp = nil, 0
 	f.stale = map[string]bool{}
@@ -2627,6 +2631,9 @@ func (tr *translator) translate(key string) *result {
 
 var resultTypes = map[string]string{}
 
+// source ranges of what was translated: "<file>:<first line>-<last line> <lean name>"
+var coverLines []string
+
 func (f *fn) liveType(name string, stmts []ast.Stmt) string {
 	var out string
 	for _, s := range stmts {
@@ -2650,6 +2657,7 @@ func (f *fn) liveType(name string, stmts []ast.Stmt) string {
 func main() {
 	repo := flag.String("repo", "/repo", "repository root")
 	out := flag.String("lean", "", "output Trans.lean")
+	cover := flag.String("cover", "", "write the source line ranges of the translated functions / segments (one per line) to this file")
 	flag.Parse()
 	abs, _ := filepath.Abs(*repo)
 	fset := token.NewFileSet()
@@ -2697,6 +2705,9 @@ func main() {
 		sb.WriteString(out)
 	}
 	sb.WriteString("end Trans\n")
+	if *cover != "" {
+		_ = os.WriteFile(*cover, []byte(strings.Join(coverLines, "\n")+"\n"), 0o644)
+	}
 	if *out == "" {
 		fmt.Print(sb.String())
 		return
